@@ -110,7 +110,7 @@ func (vc *VC) measureHavoc(st *State, mt *types.Map) {
 func (vc *VC) measureHavocAt(st *State, mt *types.Map, ref *Term) {
 	for _, m := range vc.eng.measuresFor(vc, mt) {
 		h := vc.sumHeap(st, m)
-		vc.setHeap(st, m.heap, Store(h, ref, vc.fresh("sum", sortInt)))
+		vc.setHeap(st, m.heap, Store(h, ref, vc.modVal("sum", sortInt, func(w *State) *Term { return Select(vc.sumHeap(w, m), ref, sortInt) })))
 	}
 }
 
